@@ -5,7 +5,10 @@ from vlib.core import Infra
 from props import leakblocks_common as lb
 
 ALLOC_EPS = lb.FAM_ALLOC
-BIG = [("T", k) for k in range(64)] + [("T", 64), ("T", 71), ("T", 72), ("T", 75), ("T", 127)] + \
+# every SIZE_MAX-k up to well past the point where user bytes + guard + padding + bookkeeping record stop overflowing
+# (the exact boundary depends on the layout constants of the build; a seeded change that moved it by one went unnoticed
+# when only k<64 and a few hand-picked neighbours were swept)
+BIG = [("T", k) for k in range(64)] + [("T", k) for k in range(64, 200)] + \
       [("P", e, d) for e in (31, 32, 33, 47, 62, 63) for d in (-2, -1, 0, 1, 2)]
 OVER_CAP = [4609, 5000, 65536, 1000000]      # small numbers the arena cannot satisfy
 PAIRS = [(0, 0), (0, ("T", 0)), (("T", 0), 0), (0, ("P", 63, 0)), (1, 5), (5, 1), (3, 3), (2, 4), (7, 11), (64, 64), (1, 4200), (4200, 1), (60, 70),
@@ -47,7 +50,7 @@ def sweeps(ctx):
         ex.append(e)
         # one huge request per execution too (the first divergence of an execution hides the rest)
         if not quick or ep in ("new", "malloc"):
-            for b in BIG[:12] + BIG[60:] + OVER_CAP:
+            for b in BIG[:12] + BIG[60:64] + BIG[200:] + OVER_CAP:
                 ex.append([L("alloc", "malloc", 2, sz=9), L("alloc", ep, 0, sz=b), L("release", "free", 2)])
     # C. fault point: the underlying allocator refuses the request
     for ep in ALLOC_EPS:
